@@ -532,6 +532,19 @@ SHARP_THEOREMS = ["AurelVerif.C01." + t for t in (
 SUB_MODULE = "AurelVerif.Props.C01Sub"
 SUB_THEOREMS = ["AurelVerif.C01Sub." + t for t in (
     "TSub_shapes_generated", "denSub_inputs", "sub_cohM", "sub_transparent", "polAggr_ok", "polKeep_ok")]
+# extension round 5: constructed denotation, generated return-site function table (Gen/C01Table.lean), H2 reduced to
+# the guarded bodies, hypothesis-free transparency of the 124-key sub-table closed under reads
+DEN_LEMMAS = "AurelVerif.Lemmas.CacheDen"
+TAB_MODULE = "AurelVerif.Props.C01Tab"
+TAB_THEOREMS = ["AurelVerif.CacheGet." + t for t in (
+    "denI_stable", "denOf_unfold", "cohM_auto", "tableCohM_of_guarded", "cohM_test")] + [
+    "AurelVerif.C01Tab." + t for t in (
+        "TTab_ok", "rankOf_lt", "aurel_guarded", "aurel_unguarded_stable", "den_inputs", "den_unfold")]
+TABT_MODULE = "AurelVerif.Props.C01TabT"
+TABT_THEOREMS = ["AurelVerif.C01Tab." + t for t in (
+    ["coh_%d" % k for k in (3, 4, 5, 7, 8, 9, 15, 16, 17, 18, 19, 20, 27, 28, 29, 30, 40, 41, 42, 43, 44, 45, 58, 60)]
+    + ["tab_cohM", "tab_transparent", "sub124_closed", "hardCoh_124", "sub124_transparent", "sub124_no_recursion",
+       "polAggr_ok", "polKeep_ok"])]
 COHERENCE_NEEDED = ["gxx", "gxy", "gxz", "gyy", "gyz", "gzz", "gammadown3", "kxx", "kxy", "kxz", "kyy", "kyz", "kzz",
                     "Kdown3", "betax", "betay", "betaz", "betaup3", "dtbetax", "dtbetay", "dtbetaz", "dtbetaup3",
                     "s_to_st", "Ttrace", "gtt", "gtx", "gty", "gtz", "gdet", "rho0", "eps", "rho",
@@ -540,7 +553,8 @@ COHERENCE_NEEDED = ["gxx", "gxy", "gxz", "gyy", "gyz", "gzz", "gammadown3", "kxx
                     "st_Weyl_down4"]
 COHERENCE_LEAN_FILES = ["AurelVerif/Props/C01Coherence.lean", "AurelVerif/Props/C01CoherenceA.lean",
                         "AurelVerif/Props/C01CoherenceC.lean", "AurelVerif/Props/C10Coh.lean", "AurelVerif/Props/C01M.lean",
-                        "AurelVerif/Props/C01Sub.lean", "AurelVerif/Lemmas/CacheGetM.lean"]
+                        "AurelVerif/Props/C01Sub.lean", "AurelVerif/Lemmas/CacheGetM.lean", "AurelVerif/Lemmas/CacheDen.lean",
+                        "AurelVerif/Props/C01Tab.lean", "AurelVerif/Props/C01TabT.lean", "AurelVerif/Gen/C01Table.lean"]
 
 # --------------------------------------------------------------------------
 # the coherence table: every guard of the source -> class -> covering theorems
@@ -762,8 +776,12 @@ def coherence_table(ctx, info, index, proven):
         "alternatives_needing_coherence": len(need), "alternatives_with_theorem": len([a for a in need if a in covered_by and a not in gaps]),
         "alternatives_known_gap": sorted(a for a in need if a in gaps),
         "keys_whose_alternatives_differ_by_option_only": flag_only,
-        "sub_table_with_H2_proven_outright": "25 keys (C01Sub.sub_transparent): betax..betaup3, dtbetax..dtbetaup3, "
-                                             "gxx..gammadown3, kxx..Kdown3, rho0, eps, rho"}
+        "sub_table_with_H2_proven_outright": "124 keys closed under reads (C01Tab.sub124_transparent, constructed denotation, "
+                                             "generated return-site table Gen/C01Table.lean): all 161 keys except the 8 guarded "
+                                             "bodies gdet, Ttrace, s_Ricci_down3, st_Riemann_down4, st_Ricci_down4, "
+                                             "st_Ricci_down3, st_Weyl_down4, Momentumup3 and the 29 keys that read them; "
+                                             "25 keys with a hand-written denotation (C01Sub.sub_transparent)",
+        "full_table": "C01Tab.tab_transparent: all 161 keys under HardCoh = branch coherence of those 8 guarded bodies only"}
     ctx.obligation("coherence coverage: every guard and every cache-dependent alternative of the current source has a "
                    "proven coherence theorem (%d guards, %d alternatives, %d known gap)"
                    % (len(info["guards"]), len(need), len([a for a in need if a in gaps])),
@@ -832,6 +850,24 @@ def run(ctx):
             ctx.prove(COHERENCE_W_MODULE, COHERENCE_W_THEOREMS, timeout=2400)
             ctx.prove(SHARP_MODULE, SHARP_THEOREMS, timeout=2400)
             ctx.prove(SUB_MODULE, SUB_THEOREMS, timeout=2400)
+            if info is not None:
+                # the return-site function table, regenerated from BOTH translators' outputs of the current source
+                try:
+                    from py2lean import c01table
+                    tchanged, tmeta = c01table.regen(info, r[2], r[1])
+                    ctx.cov["return_site_table"] = {"generated_keys": tmeta["generated_keys"],
+                                                    "return_sites": tmeta["return_sites"],
+                                                    "keys_left_arbitrary": tmeta["skipped"],
+                                                    "guarded_keys": tmeta["guarded"]}
+                    ctx.obligation("py2lean:c01table", tmeta["generated_keys"] >= 100,
+                                   "regenerated (changed=%s): %d keys, %d return sites mapped to traced alternatives; %d keys "
+                                   "left arbitrary (%s)" % (tchanged, tmeta["generated_keys"], tmeta["return_sites"],
+                                                            len(tmeta["skipped"]), ", ".join(sorted(tmeta["skipped"]))[:300]),
+                                   kind="translation")
+                except Exception as ex:  # noqa
+                    ctx.obligation("py2lean:c01table", False, "generation failed: %r" % ex, kind="translation")
+                ctx.prove(TAB_MODULE, TAB_THEOREMS, timeout=2400)
+                ctx.prove(TABT_MODULE, TABT_THEOREMS, timeout=2400)
             ctx.forbidden_scan(COHERENCE_LEAN_FILES)
             if info is not None:
                 proven = {o["name"]: o["ok"] for o in ctx.obligs if o["kind"] == "theorem"}
@@ -842,7 +878,7 @@ def run(ctx):
     except Exception as ex:  # noqa
         ctx.obligation("coherence theorems", False, "could not be checked: %r" % ex)
     if ctx.tier == "thorough":
-        ctx.leanchecker([MODULE, SHARP_MODULE, SUB_MODULE])
+        ctx.leanchecker([MODULE, SHARP_MODULE, SUB_MODULE, TAB_MODULE, TABT_MODULE])
     # correspondence (bookkeeping) — shared harness with C03
     runs = C03.correspondence(ctx, "C01", ctx.budget(12, 60), ctx.budget(30, 60))
     # independent search oracle (always; larger when something is broken)
@@ -894,13 +930,32 @@ MANIFEST = {
             "cached Riemann tensor vs Lambda g + kappa (T - T g/2)) and st_Ricci_down3 from it. For a sub-table of 25 keys "
             "(betax..betaup3, dtbetax..dtbetaup3, gxx..gammadown3, kxx..Kdown3, rho0, eps, rho) with the generated shapes "
             "and the generated formulas, coherence is proven for EVERY input dictionary and the transparency theorem holds "
-            "with no hypothesis about the bodies (C01Sub.sub_transparent). A guard or cache-dependent alternative that "
+            "with no hypothesis about the bodies (C01Sub.sub_transparent). Extension round 5: the denotation is CONSTRUCTED from "
+            "the table and the inputs (Lemmas/CacheDen.lean: value of the bodies when presence tests see only the inputs; "
+            "well-defined by the kernel-checked rank certificate), so that branch coherence is AUTOMATIC for the 129 bodies "
+            "that test no presence of a key with a method, whatever their formulas (tableCohM_of_guarded, aurel_guarded); "
+            "tools/py2lean/c01table.py generates the return-site function table Gen/C01Table.lean (148 keys, 186 return sites: "
+            "return site -> traced alternative of Gen/CoreKeys|CoreCurv applied to the values read, the finite-difference "
+            "operator D, kappa, Lambda as parameters; the other formulas arbitrary); coherence of 24 of the 32 guarded bodies "
+            "(betax.., dtbetax.., gxx.., kxx.., gtt, gtx, gty, gtz, rho0, eps) is proven from these generated formulas for "
+            "every input dictionary. Hence C01Tab.sub124_transparent: for the real table restricted to 124 keys closed under "
+            "reads (sub124_closed), every field, every D, every option valuation, every input dictionary, every admissible "
+            "eviction policy, every history, the value returned is the one a fresh instance returns - no hypothesis about "
+            "the bodies; C01Tab.tab_transparent: the same for all 161 keys under HardCoh = branch coherence of the 8 "
+            "remaining guarded bodies only (gdet, Ttrace, s_Ricci_down3, st_Riemann_down4, Momentumup3: algebraic; "
+            "st_Ricci_down4, st_Ricci_down3, st_Weyl_down4: on shell). A guard or cache-dependent alternative that "
             "appears in the source without a registered, proven theorem is reported as uncovered and breaks an obligation.",
     "note": "Trusted: Lean kernel + standard axioms; the AST translator of the dependency shapes (validated against every "
             "recorded real miss); the symbolic-execution translator of the formulas (translation validation each run); the "
             "hand models (trace replay). NOT proven: coherence of the Riemann-based and the E/B-based st_Weyl_down4 (needs: "
             "electric/magnetic parts of the Riemann-based tensor are eweyl_n/bweyl_n, and uniqueness of a Weyl-like tensor "
-            "with given parts) - oracle only; the per-guard theorems outside the 25-key sub-table are not assembled into one "
-            "TableCoh instance; numerical closeness (discretisation error) of the class c alternatives; that the data solve "
+            "with given parts) - oracle only; the per-guard theorems of the 8 guarded bodies gdet (needs supplied gtt/betadown3/"
+            "betamag/gammadet consistent with alpha, beta, gamma and gamma symmetric: with inputs {gtt} only, gdet is -1 fresh "
+            "but det(gdown4) after gdown4 was cached - inconsistent input, not a defect), Ttrace, s_Ricci_down3, "
+            "st_Riemann_down4, Momentumup3 (class a) and st_Ricci_down4, st_Ricci_down3, st_Weyl_down4 (class c) are stated "
+            "with hypotheses `e.X = X e` and are NOT yet discharged against the constructed denotation: they enter "
+            "C01Tab.tab_transparent as the hypothesis HardCoh, and the 37 keys that depend on them are outside the "
+            "hypothesis-free 124-key theorem; in Gen/C01Table a key read several times in one body is represented by its "
+            "first read (immaterial for the theorems: all reads return the denotation); numerical closeness (discretisation error) of the class c alternatives; that the data solve "
             "Einstein's equations. In-place mutation is C02.",
 }
